@@ -131,15 +131,32 @@ def check(ck):
     P = fa.fi.params
     ck.need(len(P) >= 4, "BlobStrategy.store: expected (self, data source, key override, object) parameters")
     ds_p, ov_p, obj_p = P[1], P[2], P[3]
-    sha = fa.one([c for c in fa.calls("sha256")], "hashlib.sha256 call")
-    ok_alg = A.call_dotted(sha) == "hashlib.sha256"
-    ck.ob(R1, fa.key(sha, "algorithm"), ok_alg, "SHA-256" if ok_alg else "the content hash is not hashlib.sha256", fa.where(sha))
-    hashed = sha.args[0] if sha.args else None
-    if not isinstance(hashed, ast.Name):
-        ck.ob(R1, fa.key(sha, "same-bytes"), False,
-              "the hash is not computed over the local byte string that is written (hashing `%s`)" % A.short(hashed, 40), fa.where(sha))
+    # the hash object: hashlib.sha256(...) or hashlib.new("sha256", ...)
+    imports = fa.fi.module.imports
+
+    def origin(call):
+        """'hashlib.sha256' for hashlib.sha256(...), h.sha256(...) with `import hashlib as h`, sha256(...) with `from hashlib import sha256`"""
+        d = A.call_dotted(call) or ""
+        head, _, rest = d.partition(".")
+        o = imports.get(head)
+        if o is None or fa.df.is_local(head):
+            return d
+        return (o.replace(":", ".") + ("." + rest if rest else "")).lstrip(".")
+    named = [c for c in fa.calls("new") if origin(c) == "hashlib.new" and c.args and (A.const_str(c.args[0]) or "").lower().replace("-", "") == "sha256"]
+    hashers = [c for c in fa.calls() if origin(c).startswith("hashlib.") and c not in named and origin(c) != "hashlib.new"] + \
+        [c for c in fa.calls("new") if origin(c) == "hashlib.new"]
+    shas = [c for c in hashers if origin(c) == "hashlib.sha256" or c in named]
+    if len(shas) != 1:
+        other = [c for c in hashers if c not in shas]
+        ck.ob(R1, fa.key(other[0] if other else None, "algorithm"), False,
+              "the content hash is not hashlib.sha256 (%s)" % (", ".join("`%s`" % A.short(c, 40) for c in other) if other else "%d SHA-256 computations" % len(shas)),
+              fa.where(other[0]) if other else fa.where())
         return
-    # the digest is used in full (the hexdigest of that very hash object, not a slice of it)
+    sha = shas[0]
+    SHA_DEP = "call:" + A.call_attr(sha)
+    ok_alg = True
+    ck.ob(R1, fa.key(sha, "algorithm"), ok_alg, "SHA-256" if ok_alg else "the content hash is not hashlib.sha256", fa.where(sha))
+
     def is_sha(rv, at, depth=4):
         if rv is sha:
             return True
@@ -147,14 +164,37 @@ def check(ck):
             ds = fa.df.reaching(at, rv.id)
             return bool(ds) and all(d.kind == "assign" and d.value is not None and is_sha(d.value, d.node, depth - 1) for d in ds)
         return False
+    # what is fed to it: the constructor's data argument and every update() of that object
+    init_arg = (sha.args[1] if len(sha.args) > 1 else A.kwarg(sha, "data")) if sha in named else (sha.args[0] if sha.args else A.kwarg(sha, "data") or A.kwarg(sha, "string"))
+    fed = ([(init_arg, sha)] if init_arg is not None else []) + \
+        [(c.args[0] if c.args else None, c) for c in fa.calls("update") if fa.nodes(c) and is_sha(A.call_recv(c), fa.nodes(c)[0])]
+    hashed = fed[0][0] if len(fed) == 1 else None
+    if not isinstance(hashed, ast.Name):
+        ck.ob(R1, fa.key(sha, "same-bytes"), False,
+              "the hash is not computed over the local byte string that is written (hashing %s)" %
+              (" + ".join("`%s`" % A.short(e, 30) for (e, _c) in fed) if fed else "nothing"), fa.where(sha))
+        return
+    hashed_at = fed[0][1]
+    # the digest is used in full (the hexdigest of that very hash object, not a slice of it)
     hx = [c for c in fa.calls("hexdigest") if fa.nodes(c) and is_sha(A.call_recv(c), fa.nodes(c)[0])]
+    # .digest().hex() is the same text
+    dg = [c for c in fa.calls("digest") if fa.nodes(c) and is_sha(A.call_recv(c), fa.nodes(c)[0]) and not c.args]
+    hx += [c for c in fa.calls("hex") if fa.nodes(c) and not c.args and any(A.call_recv(c) is d_ or (
+        isinstance(A.call_recv(c), ast.Name) and all(dd_.kind == "assign" and dd_.value is d_ for dd_ in fa.df.reaching(fa.nodes(c)[0], A.call_recv(c).id))) for d_ in dg)]
+    HEX_DEP = "call:" + A.call_attr(hx[0]) if hx else "call:hexdigest"
     par = fa.pm.get(hx[0]) if hx else None
     ok_hex = bool(hx) and not isinstance(par, ast.Subscript)
     ck.ob(R1, fa.key(sha, "full-digest"), ok_hex, "full hexdigest" if ok_hex else "the digest is truncated or not a hex digest", fa.where(sha))
     outs = fa.some(_ds_calls(fa, "output", ds_p), "data_source.output call")
+    content_tpl = _content_key_template(ck)
+
+    def is_content_key(leaf, n, dd):
+        """built by the content key builder, or spelled out as the builder's own text around one value"""
+        return "call:output_key_for_content_key" in dd or _spells_content_key(fa, leaf, n, content_tpl)
+    fa._c07_is_content_key = is_content_key
     no_ov = Assume(fa, param_truth_atom(ov_p, False))
     with_ov = Assume(fa, param_truth_atom(ov_p, True))
-    hashed_roots = {r for i in fa.nodes(sha) for r in _roots(fa, hashed, i)}
+    hashed_roots = {r for i in fa.nodes(hashed_at) for r in _roots(fa, hashed, i)}
     any_content = False
     for o in outs:
         stream = o.args[1] if len(o.args) > 1 else A.kwarg(o, "data")
@@ -179,19 +219,22 @@ def check(ck):
         for i in no_ov.live(o):
             for (leaf, n) in no_ov.cases(keyarg, i):
                 dd = fa.df.deps(leaf, n)
-                if "call:output_key_for_content_key" not in dd:
+                if not is_content_key(leaf, n, dd):
                     ok_key = False
                     why.append("without an override the output key can be `%s`, which is not built from the content hash" % A.short(leaf, 50))
-                elif "call:sha256" not in dd or "call:hexdigest" not in dd:
+                elif SHA_DEP not in dd or HEX_DEP not in dd:
                     ok_key = False
                     why.append("content key does not derive from the sha256 hexdigest")
+                elif _digest_cut(fa, leaf, n, HEX_DEP[5:]):
+                    ok_key = False
+                    why.append("only part of the digest goes into the content key (`%s`)" % A.short(_digest_cut(fa, leaf, n, HEX_DEP[5:]), 40))
                 else:
                     any_content = True
         for i in with_ov.live(o):
             for (leaf, n) in with_ov.cases(keyarg, i):
                 dd = fa.df.deps(leaf, n)
-                if "call:output_key_for_content_key" in dd:
-                    if "call:sha256" not in dd or "call:hexdigest" not in dd:
+                if is_content_key(leaf, n, dd):
+                    if SHA_DEP not in dd or HEX_DEP not in dd:
                         ok_key = False
                         why.append("content key does not derive from the sha256 hexdigest")
                 elif not ("call:output_key_for_override_key" in dd and "param:" + ov_p in dd):
@@ -205,7 +248,7 @@ def check(ck):
             why = why + ["no definition of the output key derives from the content hash"]
         ck.ob(R1, fa.key(o, "key"), ok_key, "output key = content key unless overridden" if ok_key else "; ".join(sorted(set(why))), fa.where(o))
     hd = set()
-    for i in fa.nodes(sha):
+    for i in fa.nodes(hashed_at):
         hd |= fa.df.deps(hashed, i)
     ok_enc = "callq:self.encode" in hd and "param:" + obj_p in hd
     ck.ob(R1, fa.key(sha, "bytes-are-encoding"), ok_enc, "the hashed bytes are the encoding of the stored object" if ok_enc else
@@ -225,6 +268,41 @@ def check(ck):
     if exs:
         _check_dedupe(ck, fa, exs[0], outs, R2)
     _rest(ck, fa, R3, R4, R5, R6)
+
+
+def _content_key_template(ck):
+    """The text the content key builder puts around the hash: 'c/{}'."""
+    ck_fa = FA(ck, "storage_base.Codec.Strategy.output_key_for_content_key")
+    tm = [A.str_template(x) for r in ck_fa.returns() if r.value is not None for x in ast.walk(r.value)]
+    tm = [t for t in tm if t is not None and t[0].endswith("{}") and len(t[0]) > 2]
+    return tm[0][0] if tm else None
+
+
+def _spells_content_key(fa, leaf, n, tpl) -> bool:
+    """`DataSourceKey(<the builder's template around ONE value>)`: the builder written out at its call site."""
+    if tpl is None:
+        return False
+    try:
+        e = fa.expand(leaf, n)
+    except Exception:  # noqa - an expression the expander cannot place
+        e = leaf
+    if not (isinstance(e, ast.Call) and A.call_attr(e) == "DataSourceKey" and len(e.args) + len(e.keywords) == 1):
+        return False
+    arg = e.args[0] if e.args else e.keywords[0].value
+    t = A.str_template(arg)
+    return t is not None and t[0] == tpl and len(t[1]) == 1
+
+
+def _digest_cut(fa, leaf, n, hexname):
+    """A subscript / slice applied to (something containing) the hex digest on its way into the key, or None."""
+    try:
+        e = fa.expand(leaf, n)
+    except Exception:  # noqa
+        return None
+    for x in ast.walk(e):
+        if isinstance(x, ast.Subscript) and any(isinstance(y, ast.Call) and A.call_attr(y) == hexname for y in ast.walk(x.value)):
+            return x
+    return None
 
 
 def _ds_calls(fa, name, recv_param):
@@ -256,23 +334,164 @@ def _roots(fa, name_expr, node_id, depth=8):
     return out
 
 
+def sub_conditions(fa):
+    """Every expression of the function that is evaluated for its truth value below statement level: tests of
+    conditional expressions, non-final operands of `and` / `or`, comprehension filters, assert tests."""
+    out = []
+    for x in A.walk_body(fa.node):
+        if isinstance(x, ast.IfExp):
+            out.append(x.test)
+        elif isinstance(x, ast.BoolOp):
+            out += x.values[:-1]
+        elif isinstance(x, ast.comprehension):
+            out += x.ifs
+    return out
+
+
+def expr_live(asm, expr, must=False):
+    """Is the expression `expr` evaluated on some feasible path under the assumptions `asm` (must=False), or
+    whenever its (feasibly reachable) statement runs (must=True)?  Finer than Assume.live: inside the statement the
+    branch of a conditional expression, the later operands of `and` / `or` and the element of a filtered
+    comprehension are evaluated only if the deciding sub-expressions allow it — `a if t else b`, `t and a`,
+    `[a for x in xs if t]` spell the same guard as `if t: a`.  -> list of CFG nodes at which it is evaluated."""
+    return [i for i in asm.live(expr) if sub_live(asm, expr, i, must)]
+
+
+def sub_live(asm, expr, i, must=False):
+    """The part of expr_live below statement level: given that the statement containing `expr` runs at CFG node `i`,
+    is `expr` evaluated (on some evaluation: must=False; on every evaluation: must=True)?"""
+    fa = asm.fa
+    ok = True
+    n = expr
+    while ok and n is not None and not isinstance(n, ast.stmt):
+        p = fa.pm.get(n)
+        if isinstance(p, ast.IfExp) and n is not p.test:
+            t = asm.truth(p.test, i)
+            want = n is p.body
+            if (t is (not want)) or (must and t is not want):
+                ok = False
+        elif isinstance(p, ast.BoolOp) and n is not p.values[0]:
+            k = [j for j, v in enumerate(p.values) if v is n][0]
+            cont = isinstance(p.op, ast.And)          # evaluation continues while operands are `cont`
+            for v in p.values[:k]:
+                t = asm.truth(v, i)
+                if (t is (not cont)) or (must and t is not cont):
+                    ok = False
+        elif isinstance(p, (ast.ListComp, ast.SetComp, ast.GeneratorExp, ast.DictComp)) and not isinstance(n, ast.comprehension):
+            # the element: once per item that passes every filter
+            if must or any(asm.truth(c, i) is False for g in p.generators for c in g.ifs):
+                ok = False
+        elif isinstance(p, ast.comprehension):
+            comp = fa.pm.get(p)
+            gens = list(getattr(comp, "generators", [p]))
+            k = [j for j, g in enumerate(gens) if g is p][0] if any(g is p for g in gens) else 0
+            earlier = [c for g in gens[:k] for c in g.ifs]
+            if n is p.iter:
+                # the first iterable is evaluated eagerly; a later one once per item of the earlier generators
+                if k > 0 and (must or any(asm.truth(c, i) is False for c in earlier)):
+                    ok = False
+            else:
+                j = [x for x, c in enumerate(p.ifs) if c is n]
+                earlier = earlier + (p.ifs[:j[0]] if j else [])
+                if must or any(asm.truth(c, i) is False for c in earlier):
+                    ok = False
+        elif isinstance(p, ast.Lambda):
+            if must:
+                ok = False
+        n = p
+    return ok
+
+
+NONNULL_CALLS = ("get_versioned_key", "output")     # DataSource API: return a VersionedDataSourceKey, never None
+
+
+def refined(fa, atom, rounds=3):
+    """An Assume whose atoms additionally decide `x is None` / `x is not None` / the truth of `x` for a local `x`
+    from the definitions that reach the test on the paths the assumptions leave feasible (None, or the value of
+    a data-source call that never answers None).  This is how "result variable + `if result is None:`" spells
+    the same decision as an early return.  Computed by iteration: each round prunes with the reaching
+    definitions of the previous one (an over-approximation, so every decision taken is sound)."""
+    prev = None
+    asm = None
+    for _ in range(rounds):
+        asm = _Refined(fa, atom, prev)
+        IN = asm.IN()
+        sig = {n: frozenset((d.node, d.name) for d in ds) for n, ds in IN.items()}
+        if prev is not None and sig == prev[1]:
+            break
+        prev = (IN, sig)
+    return asm
+
+
+class _Refined(Assume):
+    def __init__(self, fa, atom, prev):
+        self._base_atom = atom
+        self._prev = prev[0] if prev is not None else None
+        self._at = None
+        self._names = set()
+        super().__init__(fa, self._atom)
+
+    def truth(self, test, node_id):
+        k = (id(test), node_id)
+        if k not in self._t:
+            old, self._at = (self._at, self._names), node_id
+            # only names the test itself reads are looked up at this node (a name brought in by expanding a
+            # temporary was evaluated elsewhere)
+            self._names = {x.id for x in ast.walk(test) if isinstance(x, ast.Name)}
+            try:
+                super().truth(test, node_id)
+            finally:
+                self._at, self._names = old
+        return self._t[k]
+
+    def _noneness(self, e, at, depth=4):
+        """'none' / 'object' / None (unknown) for the value of expression e at node `at`."""
+        if A.is_none(e):
+            return "none"
+        if isinstance(e, ast.Call) and A.call_attr(e) in NONNULL_CALLS:
+            return "object"
+        if isinstance(e, ast.IfExp):
+            a, b = self._noneness(e.body, at, depth), self._noneness(e.orelse, at, depth)
+            return a if a == b else None
+        if isinstance(e, ast.Name) and depth > 0 and self._prev is not None and at is not None and (at != self._at or e.id in self._names):
+            ds = [d for d in self._prev.get(at, ()) if d.name == e.id]
+            if not ds or not all(d.kind == "assign" and d.value is not None for d in ds):
+                return None
+            vals = {self._noneness(d.value, d.node, depth - 1) for d in ds}
+            return vals.pop() if len(vals) == 1 else None
+        return None
+
+    def _atom(self, e):
+        v = self._base_atom(e)
+        if v is not None:
+            return v
+        if isinstance(e, ast.Compare) and len(e.ops) == 1 and isinstance(e.ops[0], (ast.Is, ast.Eq)) and A.is_none(e.comparators[0]):
+            k = self._noneness(e.left, self._at)
+            return None if k is None else (k == "none")
+        if isinstance(e, ast.Name):
+            k = self._noneness(e, self._at)
+            return None if k is None else (k == "object")
+        return None
+
+
 def _check_dedupe(ck, fa, ex, outs, R2):
     """Decided on what is reachable under assumptions about the two facts that matter (is there an override?
     does the content key exist?), not on the shape of the tests."""
     P = fa.fi.params
     ov_p = P[2] if len(P) > 2 else "key_override"
     EX = ("exists_nonversioned",)
-    present = Assume(fa, param_truth_atom(ov_p, False, call_atom(EX, True)))
-    absent = Assume(fa, param_truth_atom(ov_p, False, call_atom(EX, False)))
-    with_ov = Assume(fa, param_truth_atom(ov_p, True))
-    out_nodes = fa.nodes_all(outs)
+    present = refined(fa, param_truth_atom(ov_p, False, call_atom(EX, True)))
+    absent = refined(fa, param_truth_atom(ov_p, False, call_atom(EX, False)))
+    with_ov = refined(fa, param_truth_atom(ov_p, True))
     live = present.reach()
-    ok = not (set(out_nodes) & live)
+    # evaluated, not merely "in a statement that runs": `reuse(k) if present else output(k, ...)` writes nothing
+    ok = not any(expr_live(present, o) for o in outs)
     ck.ob(R2, fa.key(ex, "no-write-when-present"), ok, "output is reached only under an override or when the content key is absent" if ok else
           "a new object version is written although the content key exists and no override was given", fa.where(ex))
     # under an override the new bytes are always written (the override location is mutable: the
     # last write must win)
     ov_tests = [n for n in fa.cfg.nodes if n.kind == "test" and n.id in fa.cfg.reachable_nodes() and with_ov.truth(n.ast, n.id) is not None]
+    out_nodes = [i for o in outs for i in expr_live(with_ov, o, must=True)]
     okw = fa.cfg.exit not in with_ov.reach(removed=out_nodes)
     ck.ob(R2, fa.key(ov_tests[0].ast if ov_tests else None, "override-always-writes"), okw, "with a key override the object is always written" if okw else
           "with a key override store() can return without writing (the reuse shortcut also fires for override keys): a second result "
@@ -296,7 +515,9 @@ def _check_dedupe(ck, fa, ex, outs, R2):
     exarg_ok = bool(ex_keys)
     for i in fa.nodes(ex):
         for (leaf, n) in (absent.cases(ex.args[0], i) if ex.args else []):
-            if "call:output_key_for_content_key" not in fa.df.deps(leaf, n):
+            icc = getattr(fa, "_c07_is_content_key", None)
+            dd = fa.df.deps(leaf, n)
+            if not (icc(leaf, n, dd) if icc is not None else "call:output_key_for_content_key" in dd):
                 exarg_ok = False
     for o in outs:
         keyarg = o.args[0] if o.args else A.kwarg(o, "key")
@@ -321,6 +542,41 @@ def check_override_namespace(ck, R):
     ov = FA(ck, "storage_base.Codec.Strategy.output_key_for_override_key")
     kp = ov.fi.params[-1] if ov.fi.params else "override_key"
 
+    # a table of reserved areas (a dict / set / tuple literal bound once at module or class level) is read as the literal
+    consts = {}
+    for name, v in ov.fi.module.assigns.items():
+        if isinstance(v, (ast.Dict, ast.Set, ast.Tuple, ast.List)) or (isinstance(v, ast.Call) and A.call_attr(v) in ("frozenset", "set", "dict", "tuple")):
+            consts[name] = v
+    c_ = ov.fi.cls
+    while c_ is not None:
+        for st_ in c_.node.body:
+            if isinstance(st_, ast.Assign) and len(st_.targets) == 1 and isinstance(st_.targets[0], ast.Name) and isinstance(st_.value, (ast.Dict, ast.Set, ast.Tuple, ast.List)):
+                consts.setdefault(st_.targets[0].id, st_.value)
+        c_ = getattr(c_, "outer", None)
+
+    def with_tables(e):
+        import copy
+
+        class T(ast.NodeTransformer):
+            def visit_Name(self, n):
+                if isinstance(n.ctx, ast.Load) and n.id in consts and not ov.df.is_local(n.id):
+                    return copy.deepcopy(consts[n.id])
+                return n
+
+            def visit_Attribute(self, n):
+                self.generic_visit(n)
+                if isinstance(n.ctx, ast.Load) and n.attr in consts and isinstance(n.value, ast.Name) and n.value.id in ("self", "cls", ov.fi.cls.name if ov.fi.cls else ""):
+                    return copy.deepcopy(consts[n.attr])
+                return n
+        return T().visit(copy.deepcopy(e)) if consts else e
+
+    def table_keys(e):
+        """keys of the literal table a look-up `T.get(x)` / `T[x]` reads"""
+        t = e.func.value if isinstance(e, ast.Call) and isinstance(e.func, ast.Attribute) and e.func.attr == "get" else (e.value if isinstance(e, ast.Subscript) else None)
+        if isinstance(t, ast.Dict):
+            return [k.value for k in t.keys if isinstance(k, ast.Constant) and isinstance(k.value, str)]
+        return []
+
     def refused_or_escaped(strings_any, negative_ok=False):
         """Under the assumption that every comparison / call on the override key that mentions one of `strings_any` holds:
         is the key refused on every path, or rewritten before it is returned?  (False when no such test exists.)"""
@@ -329,6 +585,11 @@ def check_override_namespace(ck, R):
         def atom(e):
             if isinstance(e, ast.Name) and e.id == kp:
                 return True
+            e = with_tables(e)
+            if isinstance(e, ast.Compare) and len(e.ops) == 1 and isinstance(e.ops[0], (ast.Is, ast.Eq)) and A.is_none(e.comparators[0]) \
+                    and isinstance(e.left, (ast.Call, ast.Subscript)) and (set(strings_any) & set(table_keys(e.left))) and kp in A.names_in(e.left):
+                hits[0] += 1
+                return False         # the look-up of a reserved component in the table of reserved areas finds an entry
             if isinstance(e, (ast.Compare, ast.Call)) and (set(strings_any) & set(A.strings_in(e))) \
                     and kp in A.names_in(e) and not (isinstance(e, ast.Compare) and type(e.ops[0]) in (ast.NotEq, ast.NotIn, ast.IsNot)):
                 hits[0] += 1
@@ -483,12 +744,16 @@ def _rest(ck, fa, R3, R4, R5, R6):
     kp = pp.fi.params[1] if len(pp.fi.params) > 1 else "key"
     fields = _namedtuple_fields(ck, "storage_base", ("result_type", "content_key"))
     at = pp.nodes(lc)[0]
-    okp = len(lc.args) == 3 and not lc.keywords
+    # by the callee's parameter names, so positional and keyword spellings are the same call
+    cl = ck.repo.try_func("storage_base.Codec.load")
+    lparams = [p_ for p_ in (cl.params if cl is not None else ["self", "result_type", "data_source", "key"]) if p_ != "self"]
+    largs = [A.arg_or_kw(lc, i, pn) for i, pn in enumerate(lparams[:3])]
+    okp = len(lc.args) + len(lc.keywords) == 3 and all(a is not None for a in largs)
     if okp:
-        rt, ckf = _entry_field(pp, lc.args[0], at, fields), _entry_field(pp, lc.args[2], at, fields)
+        rt, ckf = _entry_field(pp, largs[0], at, fields), _entry_field(pp, largs[2], at, fields)
         entries = ("self._index[%s]" % kp, "self._index.get(%s)" % kp)
         okp = rt is not None and ckf is not None and rt[1] == "result_type" and ckf[1] == "content_key" \
-            and rt[0] == ckf[0] and rt[0] in entries and pp.xnorm(lc.args[1], at) == "self._data_source"
+            and rt[0] == ckf[0] and rt[0] in entries and pp.xnorm(largs[1], at) == "self._data_source"
     ck.ob(R3, pp.key(None, "loads-indexed-key"), okp, "partition values are loaded by their indexed versioned key" if okp else
           "partition get() does not load (entry.result_type, data source, entry.content_key)", pp.where(lc))
     pi = FA(ck, "storage_base.DefaultCodec.PicklePartition.__init__")
